@@ -351,6 +351,7 @@ int main(int argc, char **argv)
 	memset(pw32, 0, sizeof pw32); strcpy((char *)pw32, PW);
 	mk_challenges();
 	xp_init("C19", a.tier, 1024, a.budget_s);
+	xp_guard("!C19", NULL, 0);
 	if (a.replay) { job(xp_load_replay(a.replay)); return 0; }
 	hc_quiet();
 	xp_run_jobs(8, job, a.workers);
